@@ -1273,6 +1273,7 @@ int32 matrixRegisterSession(ssl_t *ssl)
     g_sessionTable[i].minVer = psEncodeVersionMin(GET_NGTD_VER(ssl));
 
     g_sessionTable[i].extendedMasterSecret = ssl->extFlags.extended_master_secret;
+    ssl->sessionCacheRef = i + 1;
 
     psUnlockMutex(&g_sessionTableLock);
     return i;
@@ -1284,21 +1285,26 @@ int32 matrixRegisterSession(ssl_t *ssl)
  */
 int32 matrixClearSession(ssl_t *ssl, int32 remove)
 {
-    unsigned char *id;
     uint32 i;
 
     if (ssl->sessionIdLen <= 0)
     {
         return PS_ARG_FAIL;
     }
-    id = ssl->sessionId;
-
-    i = ((uint32) id[3] << 24) + (id[2] << 16) + (id[1] << 8) + id[0];
+    /* Only a connection that registered or resumed the entry holds a
+       reference on it.  The session id is not proof of that: with ticket
+       resumption and with TLS 1.3 it is the client's value echoed back. */
+    if (ssl->sessionCacheRef == 0)
+    {
+        return PS_ARG_FAIL;
+    }
+    i = ssl->sessionCacheRef - 1;
     if (i >= SSL_SESSION_TABLE_SIZE)
     {
         return PS_LIMIT_FAIL;
     }
     psLockMutex(&g_sessionTableLock);
+    ssl->sessionCacheRef = 0;
     g_sessionTable[i].inUse -= 1;
     if (g_sessionTable[i].inUse == 0)
     {
@@ -1395,6 +1401,7 @@ int32 matrixResumeSession(ssl_t *ssl)
     {
         DLListRemove(&g_sessionTable[i].chronList);
     }
+    ssl->sessionCacheRef = i + 1;
     psUnlockMutex(&g_sessionTableLock);
 
     return PS_SUCCESS;
@@ -1408,20 +1415,20 @@ int32 matrixResumeSession(ssl_t *ssl)
  */
 int32 matrixUpdateSession(ssl_t *ssl)
 {
-    unsigned char *id;
     uint32 i;
 
     if (!(ssl->flags & SSL_FLAGS_SERVER))
     {
         return PS_ARG_FAIL;
     }
-    if (ssl->sessionIdLen == 0)
+    if (ssl->sessionIdLen == 0 || ssl->sessionCacheRef == 0)
     {
-        /* No table entry.  matrixRegisterSession was full of inUse entries */
+        /* No table entry.  matrixRegisterSession was full of inUse entries,
+           or the session id is one echoed from the ClientHello (ticket
+           resumption, TLS 1.3) and not a reference on a cache entry */
         return PS_LIMIT_FAIL;
     }
-    id = ssl->sessionId;
-    i = ((uint32) id[3] << 24) + (id[2] << 16) + (id[1] << 8) + id[0];
+    i = ssl->sessionCacheRef - 1;
     if (i >= SSL_SESSION_TABLE_SIZE)
     {
         return PS_LIMIT_FAIL;
@@ -1430,11 +1437,17 @@ int32 matrixUpdateSession(ssl_t *ssl)
     If there is an error on the session, invalidate for any future use
  */
     psLockMutex(&g_sessionTableLock);
-    g_sessionTable[i].inUse += ssl->flags & SSL_FLAGS_CLOSED ? -1 : 0;
-    if (g_sessionTable[i].inUse == 0)
+    if (ssl->flags & SSL_FLAGS_CLOSED)
     {
-        /* End of the line */
-        DLListInsertTail(&g_sessionChronList, &g_sessionTable[i].chronList);
+        /* Give the reference back, once */
+        ssl->sessionCacheRef = 0;
+        g_sessionTable[i].inUse -= 1;
+        if (g_sessionTable[i].inUse == 0)
+        {
+            /* End of the line */
+            DLListInsertTail(&g_sessionChronList,
+                &g_sessionTable[i].chronList);
+        }
     }
     if (ssl->flags & SSL_FLAGS_ERROR)
     {
